@@ -163,7 +163,7 @@ pub fn case(ctx: &Ctx, env: &RealEnv, dir: &std::path::Path, case: u64, seed: u6
     let pred = super::predict_inv(&w, &inv.as_sim_inv());
     let hist = vec![J::obj().with("tasks", J::i(ntasks)).with("invocation", inv.to_json())];
     let mk = || J::obj().with("case", J::i(case)).with("invocation", inv.to_json()).with("trace", out.trace_json());
-    if !judge_real(ctx, rep, case, &hist, &proj_before, &pred, &inv, &out, &w) || out.timed_out {
+    if !judge_real(ctx, rep, case, &hist, &proj_before, &pred, &inv, &out, &w, &Default::default()) || out.timed_out {
         return;
     }
     // every task started exactly once (all dirty, independent, generous -k)
